@@ -178,9 +178,15 @@ def in_proto(draw):
     else:
         i.update(hash=draw(st.binary(min_size=32, max_size=32).filter(lambda b: b != NULL32)).hex(), pos=draw(u32))
         t = draw(st.sampled_from(["pubkey_hash", "pubkey_hash", "pubkey_hash_total", "timelock", "timelock_source",
-                                  "pubkey"]))
+                                  "pubkey", "multisig"]))
         sc = {"t": t}
-        if t == "pubkey_hash_total":
+        if t == "multisig":
+            # the one library factory whose redeem script crosses the 75/76 and 252/253 byte push boundaries
+            sc["nsig"] = draw(st.integers(2, 3))
+            sc["npub"] = draw(st.integers(2, 8))
+            sc["publen"] = draw(st.sampled_from([33, 33, 65]))
+            sc["siglen"] = draw(st.sampled_from([71, 72, 73]))
+        elif t == "pubkey_hash_total":
             sc["total"] = draw(st.sampled_from(TOTAL_EDGES))
             sc["pub"] = draw(B.sized(st.just(33)))
         else:
@@ -201,7 +207,8 @@ def built_case(draw):
             "n_in": draw(counts), "ins": draw(st.lists(in_proto(), min_size=1, max_size=4)),
             "n_out": draw(counts), "outs": draw(st.lists(out_proto(), min_size=1, max_size=4)),
             # read raw / id / size half way through the assembly (as Transaction.create does for fee estimation)
-            "touch": draw(st.sampled_from(["no", "no", "raw", "id", "size"]))}
+            "touch": draw(st.sampled_from(["no", "no", "raw", "id", "size"])),
+            "parent_edit": draw(st.booleans())}
 
 
 # ------------------------------------------------------------------------------------- building (lbry + ref)
@@ -285,6 +292,9 @@ def build_output(L, o, cycle, idx):
             "support_claim+data+pay_pubkey_hash", "support_data" + (":obj" if "obj" in o["payload"] else ""))
 
 
+PARENT_EDITORS = {}
+
+
 def build_input(L, p, cycle, idx, seed):
     """-> (lbry Input, expected ref TxIn, expected input template name or None, label)"""
     I, IS = L.Input, L.InputScript
@@ -301,6 +311,13 @@ def build_input(L, p, cycle, idx, seed):
         rprev = R.Tx(p["pv"], [], [R.TxOut((p["amt"] + j) % 2 ** 64, S.build_output(None, "p2pkh", {"hash": hashes[j]}))
                                    for j in range(p["pn"])], pl)
         script = S.build_redeem_p2pkh(b"\x00" * 72, b"\x00" * 33)
+
+        def edit_parent(_prev=prev, _rprev=rprev):
+            """the spent transaction (still only in memory) gets one more output: its id changes"""
+            _prev.add_outputs([L.Output.pay_pubkey_hash(1234, b"\x07" * 20)])
+            _rprev.vout.append(R.TxOut(1234, S.build_output(None, "p2pkh", {"hash": b"\x07" * 20})))
+            return _rprev.hash
+        PARENT_EDITORS[id(txi)] = edit_parent
         return txi, R.TxIn(rprev.hash, n, script, seq), "pubkey_hash", "spend"
     if k == "spend_tl":
         pl = (p["pl"] + idx) % 2 ** 32
@@ -322,6 +339,16 @@ def build_input(L, p, cycle, idx, seed):
     pos = p["pos"] if cycle == 0 else (p["pos"] + cycle) % 2 ** 32
     sc = p["script"]
     t = sc["t"]
+    if t == "multisig":
+        sigs = [derived_hash(seed, idx * 16 + j, "sg") * 3 for j in range(sc["nsig"])]
+        sigs = [x[:sc["siglen"]] for x in sigs]
+        pubs = [(b"\x02" + derived_hash(seed, idx * 16 + j, "pb") * 3)[:sc["publen"]] for j in range(sc["npub"])]
+        script = IS.redeem_multi_sig_script_hash(sigs, pubs)
+        redeem = bytes([0x50 + sc["nsig"]]) + b"".join(S.push(x) for x in pubs) + bytes([0x50 + sc["npub"]]) + b"\xae"
+        exp = b"\x00" + b"".join(S.push(x) for x in sigs) + S.push(redeem)
+        txi = I(L.TXORef(L.TXRefImmutable.from_hash(h, -1), pos), script, seq)
+        return txi, R.TxIn(h, pos, exp, seq), "script_hash+multi_sig", "ref:multisig_redeem%s" % (
+            "_ge253" if len(redeem) >= 253 else "_ge76" if len(redeem) >= 76 else "_lt76")
     if t == "pubkey_hash_total":
         pub = B.expand(sc["pub"])
         n = payload_len_for_total(sc["total"] if cycle == 0 else 252 + idx % 3, len(S.push(pub)))
@@ -450,6 +477,7 @@ def run_built(case):
     out = Out()
     L = _imports()
     seed = case["seed"]
+    PARENT_EDITORS.clear()
     ins, vin, in_names = [], [], []
     for i in range(case["n_in"]):
         p = case["ins"][i % len(case["ins"])]
@@ -477,6 +505,17 @@ def run_built(case):
         hi, ho = (len(ins) + 1) // 2, (len(outs) + 1) // 2
         tx.add_inputs(ins[:hi]).add_outputs(outs[:ho])
         _ = {"raw": lambda: tx.raw, "id": lambda: tx.id, "size": lambda: tx.size + tx.base_size}[touch]()
+        if case.get("parent_edit"):
+            # ... and a transaction being spent (in memory only, e.g. not signed yet) changes after that first look: what is
+            # serialised in the end must name the parent as it is then
+            edited = 0
+            for k in range(hi):
+                ed = PARENT_EDITORS.get(id(ins[k]))
+                if ed is not None:
+                    exp.vin[k] = R.TxIn(ed(), exp.vin[k].prev_index, exp.vin[k].script, exp.vin[k].sequence)
+                    edited += 1
+            if edited:
+                out.label("parent_edited_after_first_serialisation")
         tx.add_outputs(outs[ho:]).add_inputs(ins[hi:])
         # inputs were appended after the second half of the outputs: order within each list is what matters
     out.label("touch:" + touch)
